@@ -327,3 +327,43 @@ macro_rules! with_lang {
 }
 
 pub const LANGS: [&str; 7] = ["plain", "lam", "sdql", "let", "array", "pay", "main"];
+
+pub fn lit_parses(ty: &str, v: &str) -> bool {
+    match ty {
+        "u32" => v.parse::<u32>().is_ok(),
+        "i64" => v.parse::<i64>().is_ok(),
+        "bool" => v.parse::<bool>().is_ok(),
+        "char" => v.parse::<char>().is_ok(),
+        _ => true,
+    }
+}
+
+/// "payload values print unambiguously": an unnamed-variant payload must not be accepted by an
+/// earlier unnamed variant, must not equal an operator name, and must print the way it parses.
+pub fn unambiguous<L: HLang>(n: &ANode) -> bool {
+    let sig = L::sig();
+    if sig[n.v].name.is_some() {
+        return n.fields.iter().all(|f| match f {
+            AField::Lit(v) => v.parse::<u32>().map(|x| x.to_string() == *v).unwrap_or(true),
+            _ => true,
+        });
+    }
+    let AField::Lit(v) = &n.fields[0] else { return true };
+    if sig.iter().any(|vs| vs.name == Some(v.as_str())) {
+        return false;
+    }
+    for (i, vs) in sig.iter().enumerate() {
+        if i >= n.v {
+            break;
+        }
+        if vs.name.is_none() {
+            if let Some(Kind::L(ty)) = vs.kinds.first() {
+                if lit_parses(ty, v) {
+                    return false;
+                }
+            }
+        }
+    }
+    true
+}
+
